@@ -189,7 +189,7 @@ func runC12(c *core.Ctx) {
 			}
 		}
 	}
-	c.Floor("R12a", 15, "stores in reset, AddChild, RemoveAndReleaseTree")
+	c.Floor("R12a", 8, "stores in reset, AddChild, RemoveAndReleaseTree")
 	c.Note("R12a writers: %v", writers)
 
 	c12PoolRules(c, r, fns, allowed, "R12b", "R12c", "R12d")
@@ -223,6 +223,12 @@ func c12PoolRules(c *core.Ctx, r *c12roles, fns []*ssa.Function, allowed map[*ss
 			for _, w := range core.Writes(reset) {
 				if w.Kind == "field" && w.Field == fld && w.Root == recv && len(w.Chain) == 1 {
 					stores = append(stores, w)
+				}
+				// whole-struct form `*n = Node{...}`: every field is stored, with the literal's value or zero
+				if w.Kind == "struct" && w.Root == recv && len(w.Chain) == 0 {
+					ws := w
+					ws.Val = structLiteralField(w.Val, i)
+					stores = append(stores, ws)
 				}
 			}
 			if len(stores) == 0 {
@@ -258,7 +264,7 @@ func c12PoolRules(c *core.Ctx, r *c12roles, fns []*ssa.Function, allowed map[*ss
 				}
 				r.counterFn = cf
 				c.OK(rb, key, last.Pos, "ID = "+core.FuncKey(cf)+"() (atomic counter)")
-			} else if core.IsZeroConst(last.Val) {
+			} else if last.Val == nil || core.IsZeroConst(last.Val) {
 				c.OK(rb, key, last.Pos, "stored with the zero value")
 			} else {
 				c.Bad(rb, key, last.Pos, "field reset to a non-zero value: fresh nodes would not be blank")
@@ -1062,4 +1068,30 @@ func c12AllowedWriters(r *c12roles) map[*ssa.Function]bool {
 		grow(rf)
 	}
 	return allowed
+}
+
+// structLiteralField: v is the value stored by `*p = T{...}` (a load of the literal's temporary, or a zero constant);
+// returns the value the literal assigns to field index i, or nil when the field is left at its zero value.
+func structLiteralField(v ssa.Value, i int) ssa.Value {
+	u, ok := v.(*ssa.UnOp)
+	if !ok || u.Op != token.MUL {
+		return nil
+	}
+	a, ok := u.X.(*ssa.Alloc)
+	if !ok {
+		return nil
+	}
+	var val ssa.Value
+	for _, r := range core.Referrers(a) {
+		fa, ok := r.(*ssa.FieldAddr)
+		if !ok || fa.Field != i {
+			continue
+		}
+		for _, r2 := range core.Referrers(fa) {
+			if st, ok := r2.(*ssa.Store); ok && st.Addr == ssa.Value(fa) {
+				val = st.Val
+			}
+		}
+	}
+	return val
 }
